@@ -7,7 +7,9 @@ CLAIMS = {
              'transition table read from the source satisfies the documented graph constraints (R1), the only writer '
              'of the local state is FiniteStateMachine.set_state and its assignment is dominated by the table test '
              '(R2), and every decision of a Master-driven state is a follow of the Master state or taken under Master '
-             'authority (R4). Not decided: message timing between a Master and its followers.',
+             'authority (R4); who the Master can be - only a RUNNING candidate, forgotten when it leaves RUNNING, elected on a '
+             'stable context only (R5, obligations shared with C01). Not decided: message timing between a Master and its '
+             'followers.',
         technique='table constraints + who-may-write/dominance + abstract decision sets over the class hierarchy (ast)',
         design='4/C02'),
     'C01': dict(
@@ -151,7 +153,9 @@ CLAIMS = {
              'publishes the same payload under the same facts (R1); writer/reader table agreement of the 8 publication '
              'headers, forwarding filter and fan-out (R2); snapshot transferred before the authorization result, every '
              'entry loaded under the sender identifier, handshake trigger (R3); acceptance guards of the consumers '
-             '(R4).',
+             '(R4); the definitions every instance applies to the same reports - running(), running_on(), the processes '
+             'listed as running on an instance whatever its own state - which decide what is declared lost with an '
+             'instance (R5).',
         technique='call pairing with fact equality + writer/reader table agreement + must-call order (ast)',
         design='4/C12'),
     'C13': dict(
